@@ -134,6 +134,20 @@ def fixed():
             checks.append(dict({"op": "create", "at": "", "h": ["md5"], "now": "2026-03-01 12:30:00"}, **kw))
             out.append({"profile": "c03-three-levels", "root": "root", "tree": tree, "ops": seal + mut + checks,
                         "c03": {"altered": [], "removed": [victim] if victim else [], "added": [], "patterns": [], "late_pattern": None, "n_seal": 3, "n_mut": len(mut)}})
+    # the usual "no hidden files" pattern, then recorded entries removed
+    for pat in (".*", "?", "[.]*"):
+        tree = {"a.txt": "a", "sub/b.txt": "b", "sub/deep/c.txt": "c", ".hidden": "h", "sub/.DS_Info": "i", "x": "single letter name"}
+        seal = [{"op": "create", "at": "", "h": ["md5"], "now": "2026-03-01 12:00:01", "i": [pat]}]
+        removed = ["a.txt", "sub/deep", "sub/deep/c.txt"]
+        out.append({"profile": "c03-hidden-pattern", "impl_only": True, "root": "root", "tree": tree,
+                    "ops": seal + [{"op": "rm", "path": "a.txt"}, {"op": "rm", "path": "sub/deep"}] + [{"op": "verify", "at": ""}, {"op": "diff", "at": ""}, {"op": "create", "at": "", "h": ["md5"], "now": "2026-03-01 12:30:00"}],
+                    "c03": {"altered": [], "removed": sorted(removed), "added": [], "patterns": [pat], "late_pattern": None, "n_seal": 1, "n_mut": 2}})
+    # a whole folder of clips gone: every one of the missing paths is named
+    big = {"clips/c%03d.mov" % i: "clip %d" % i for i in range(130)}
+    big["keep.txt"] = "k"
+    out.append({"profile": "c03-many-missing", "impl_only": True, "root": "root", "tree": big,
+                "ops": [{"op": "create", "at": "", "h": ["md5"], "now": "2026-03-01 12:00:01"}, {"op": "rm", "path": "clips"}, {"op": "verify", "at": ""}, {"op": "diff", "at": ""}, {"op": "create", "at": "", "h": ["md5"], "now": "2026-03-01 12:30:00"}],
+                "c03": {"altered": [], "removed": sorted(["clips"] + [k for k in big if k.startswith("clips/")]), "added": [], "patterns": [], "late_pattern": None, "n_seal": 1, "n_mut": 1}})
     # a nested history below a folder whose name begins with a dot is a nested history like any other
     for variant in ("alter", "resealed-child"):
         tree = {".proxies/day1/p.txt": "p", ".proxies/day1/q.txt": "q", "top.txt": "t"}
